@@ -6,3 +6,7 @@ import NbioVerif.Properties.C11
 #print axioms Own.c11_http_unique_owner
 #print axioms Own.c11_response_frames_request
 #print axioms Own.c11_http_close_releases
+#print axioms OwnC.c11_conn_write_queue
+#print axioms OwnC.c11_conn_close_releases
+#print axioms OwnW.c11_ws_ownership
+#print axioms OwnW.c11_ws_close_releases
